@@ -141,10 +141,9 @@ Definition strip_string (data : bytes) : bytes :=
 Definition get_lstr (r : reader) : reader * mres bytes :=
   match get_int32 r with
   | (r1, MOk len) =>
+      if (len <? 0)%Z then (r1, MErr MOther) else     (* negative length prefix: rejected before any allocation *)
       match ensure r1 len with
-      | (r2, MOk _) =>
-          if (len <? 0)%Z then (r2, MPanic)      (* make([]byte, length) with length < 0 *)
-          else let '(r3, data) := take r2 (Z.to_N len) in (r3, MOk (strip_string data))
+      | (r2, MOk _) => let '(r3, data) := take r2 (Z.to_N len) in (r3, MOk (strip_string data))
       | (r2, MErr e) => (r2, MErr e)
       | (r2, MPanic) => (r2, MPanic)
       end
